@@ -30,6 +30,9 @@ type Profile struct {
 	Tag      string `json:"tag"`
 	Origins  int    `json:"origins"`
 	Mirror   bool   `json:"mirror"`
+	// MirrorAll: every log is mirrored, not only the first (state shared across
+	// logs inside the witness would show)
+	MirrorAll bool `json:"mirror_all,omitempty"`
 	LogSize  int64  `json:"log_size"`
 	ForkAt   int64  `json:"fork_at"`
 	Reqs     int    `json:"reqs"`
@@ -78,6 +81,10 @@ func MakeProfile(prop string, seed uint64, tier string) *Profile {
 		p.ForkAt = int64(r.Intn(int(p.LogSize)))
 		p.Reqs = 15 + r.Intn(30)
 		p.Script = p.LogSize >= 300 && r.Chance(1, 3)
+		if p.Origins > 1 && r.Chance(1, 2) {
+			p.MirrorAll = true
+			p.Tag += "+mirrorall"
+		}
 	case "C16":
 		p.Mirror = r.Chance(2, 3)
 		p.Subtree = true
@@ -203,7 +210,7 @@ func (w *World) newIncarnation() *incarnation {
 	plain.WriteString("logs/v0\n")
 	mirrored.WriteString("logs/v0\n")
 	for i, g := range w.logs {
-		if w.prof.Mirror && i == 0 {
+		if w.prof.Mirror && (i == 0 || w.prof.MirrorAll) {
 			fmt.Fprintf(&mirrored, "vkey %s\n", g.vkey)
 		} else {
 			fmt.Fprintf(&plain, "vkey %s\n", g.vkey)
